@@ -208,7 +208,8 @@ class C15(Property):
         if rng.random() < 0.6:
             case["granularity"] = "shared"
         # registrations made BEFORE the threads start (a reader that walks the table has something to walk while a writer adds)
-        case["pre_regs"] = rng.sample(["p", "q", "r"], rng.randint(0, 3))
+        # (in half of the runs none: the very FIRST registration on an object is a moment of its own)
+        case["pre_regs"] = rng.sample(["p", "q", "r"], rng.choice([0, 0, 0, 1, 2, 3]))
         aliases = ["a", "b", "c", "d", "e"]
         regs = {}
         for i in range(case["nthreads"] - 1):
